@@ -123,7 +123,35 @@ def d_fixpoint(ck: Check) -> None:
                     between = fm.cfg.reach_avoiding(d, [hdr]) & fm.cfg.can_reach_avoiding(g, [hdr])
                     if not any(u.id in between for u in ups):
                         lowered_before = True
-            if not lowered_before and hdr.id in fm.cfg.reach_avoiding(g, downs):
+            # a witness raised next to the growth (`grown = True; avoid = avoid.union(..)`) and tested later (`if grown:` /
+            # `if avoid_grown:` with `avoid_grown = grown`) decides that test: its false edge is not a way around the lowering
+            blocked = []
+            par_ = f.parents.get(g.ast)
+            sibs = []
+            for fld_ in ("body", "orelse", "finalbody"):
+                b_ = getattr(par_, fld_, None)
+                if isinstance(b_, list) and g.ast in b_:
+                    sibs = b_
+            Ws = {st_.targets[0].id for st_ in sibs if isinstance(st_, ast.Assign) and len(st_.targets) == 1
+                  and isinstance(st_.targets[0], ast.Name) and is_true(st_.value)}
+            after_g = fm.cfg.reach_avoiding(g, [hdr])
+            for W in Ws:
+                lowered_later = any(n_.kind == "stmt" and isinstance(n_.ast, ast.Assign) and len(n_.ast.targets) == 1
+                                    and isinstance(n_.ast.targets[0], ast.Name) and n_.ast.targets[0].id == W and not is_true(n_.ast.value)
+                                    for n_ in (fm.cfg.nodes[i] for i in after_g))
+                if lowered_later:
+                    continue
+                for i in ids:
+                    bn = fm.cfg.nodes[i]
+                    if bn.kind == "branch" and not bn.pol and isinstance(bn.test, ast.Name) and i in after_g:
+                        tn_ = fm.cfg.nodes[next(iter(fm.cfg.g.predecessors(bn.id)))]
+                        T = bn.test.id
+                        rd = fm.cfg.reaching_defs(T, tn_)
+                        if T == W or (rd and all(d_.kind == "stmt" and isinstance(d_.ast, ast.Assign) and isinstance(d_.ast.value, ast.Name)
+                                                 and d_.ast.value.id == W for d_ in rd if d_.id in after_g)
+                                      and any(d_.id in after_g for d_ in rd)):
+                            blocked.append(bn)
+            if not lowered_before and hdr.id in fm.cfg.reach_avoiding(g, downs + blocked):
                 probs.append(f"line {g.ast.lineno}: `{text(g.ast)[:50]}` enlarges a set, and the round can end with `{F}` still raised: "
                              f"the loop stops although the set has just changed")
         for d in downs:
